@@ -7,9 +7,17 @@ import vlib
 def run(verdict, wd, plans, seed):
     """plans: list of (kind, count).  Adds violations to verdict; returns coverage dict."""
     cov = {'vm_trace_evaluations': 0, 'vm_trace_steps': 0, 'vm_trace_states': 0, 'vm_trace_mismatches': 0}
+    # at most 200 programs (up to 4000 recorded instructions each) per TLC run
+    pieces = []
     for i, (kind, count) in enumerate(plans):
+        c = 0
+        while count > 0:
+            pieces.append((kind, min(200, count), seed + 7 * i + 7919 * c))
+            count -= 200
+            c += 1
+    for i, (kind, count, pseed) in enumerate(pieces):
         out = os.path.join(wd, 'vmt%d.ndjson' % i)
-        p = vlib.harness(['vmtrace', 'kind=' + kind, 'seed=%d' % (seed + 7 * i), 'count=%d' % count, 'out=' + out],
+        p = vlib.harness(['vmtrace', 'kind=' + kind, 'seed=%d' % pseed, 'count=%d' % count, 'out=' + out],
                          check=False, timeout=900)
         if p.returncode != 0:
             verdict.violation(['vmtrace/abort'], 'the harness died while tracing %s programs (rc=%s)' % (kind, p.returncode),
@@ -19,7 +27,7 @@ def run(verdict, wd, plans, seed):
         if n == 0:
             continue
         r = vlib.tlc('Trace_VM', 'Trace_VM.cfg', os.path.join(wd, 'vmtmeta%d' % i), env={'TRACE': out}, workers=8,
-                     timeout=1800, heap='8g')
+                     timeout=3600, heap='8g')
         if r.rc != 0:
             vlib.log(r.tail)
             raise vlib.ToolError('Trace_VM failed (rc=%d)' % r.rc)
